@@ -378,23 +378,93 @@ func guardEdges(fn *ssa.Function, pred CondPred) (holds, fails []Edge) {
 		if !ok {
 			continue
 		}
-		inner, flip := stripNot(ifi.Cond)
-		m, pos := pred(inner)
-		if !m {
-			continue
-		}
-		if flip {
-			pos = !pos
-		}
-		if pos {
-			holds = append(holds, Edge{b, 0})
-			fails = append(fails, Edge{b, 1})
-		} else {
-			holds = append(holds, Edge{b, 1})
-			fails = append(fails, Edge{b, 0})
+		for k := 0; k < 2; k++ {
+			isHold, isFail := false, false
+			for _, f := range impliedFacts(ifi.Cond, k == 0, 0) {
+				m, pos := pred(f.v)
+				if !m {
+					continue
+				}
+				if pos == f.val {
+					isHold = true
+				} else {
+					isFail = true
+				}
+			}
+			if isHold && !isFail {
+				holds = append(holds, Edge{b, k})
+			}
+			if isFail && !isHold {
+				fails = append(fails, Edge{b, k})
+			}
 		}
 	}
 	return
+}
+
+type branchFact struct {
+	v   ssa.Value
+	val bool
+}
+
+// impliedFacts: what taking the branch "cond == outcome" says about the atomic conditions. Besides
+// the condition itself (negations peeled) this looks through the boolean phi that `a && b` / `a || b`
+// become when they are not compiled to branches (a `case a && b:` of a tagless switch, a condition
+// bound to a local first): when only one incoming edge of the phi can carry the outcome, the branch
+// implies that edge's value and the tests that lead to the edge's source block.
+func impliedFacts(cond ssa.Value, outcome bool, depth int) []branchFact {
+	inner, flip := stripNot(cond)
+	if flip {
+		outcome = !outcome
+	}
+	out := []branchFact{{inner, outcome}}
+	ph, ok := inner.(*ssa.Phi)
+	if !ok || depth > 3 {
+		return out
+	}
+	if bt, isB := ph.Type().Underlying().(*types.Basic); !isB || bt.Kind() != types.Bool {
+		return out
+	}
+	cand := -1
+	for i, e := range ph.Edges {
+		if c, isC := constBool(e); isC && c != outcome {
+			continue
+		}
+		if cand >= 0 {
+			return out // more than one incoming edge can carry the outcome
+		}
+		cand = i
+	}
+	if cand < 0 {
+		return out
+	}
+	if _, isC := constBool(ph.Edges[cand]); !isC {
+		out = append(out, impliedFacts(ph.Edges[cand], outcome, depth+1)...)
+	}
+	// the tests on the way to the source block of that edge
+	cur := ph.Block().Preds[cand]
+	for d := 0; d < 8; d++ {
+		if len(cur.Preds) != 1 {
+			break
+		}
+		p := cur.Preds[0]
+		pif := blockIf(p)
+		if pif == nil || p == cur {
+			break
+		}
+		idx := -1
+		for i, sc := range p.Succs {
+			if sc == cur {
+				idx = i
+			}
+		}
+		if idx < 0 || p.Succs[0] == p.Succs[1] {
+			break
+		}
+		out = append(out, impliedFacts(pif.Cond, idx == 0, depth+1)...)
+		cur = p
+	}
+	return out
 }
 
 // onlyVia reports whether block target can be reached from entry only through one of the
